@@ -334,8 +334,13 @@ func Glob(input, match string) bool {
 	last := len(parts) - 1
 
 	// Check prefix first.
-	if !leadingGlob && !strings.HasPrefix(input, parts[0]) {
-		return false
+	if !leadingGlob {
+		if !strings.HasPrefix(input, parts[0]) {
+			return false
+		}
+
+		// Consume the prefix, so that later pieces can't overlap it.
+		input = input[len(parts[0]):]
 	}
 
 	// Check middle section.
